@@ -410,7 +410,7 @@ def mode_rerun(args):
     shapes = []
     for n in (1, 2, 3):
         shapes.extend((n, e) for e in all_edge_maps(n))
-    events = ('keep', 'lose', 'fail', 'recover', 'stale')      # per task, between two runs
+    events = ('keep', 'lose', 'fail', 'recover', 'stale', 'noclock')      # per task, between two runs
     cases = []
     for n, edges in shapes:
         for out1 in itertools.product(('done', 'failed'), repeat=n):
@@ -466,6 +466,12 @@ def _rerun_case(n, edges, out1, between):
             if 'start_clock' in ent:
                 ent['start_clock'] = ent['start_clock'] - 1000.0
                 ent['end_clock'] = ent['end_clock'] - 1000.0
+    # 'noclock': the entry was put into the environment by hand (seeded results): DONE, but without start / end clocks
+    for j in range(n):
+        name = f't{j}'
+        if between[j] == 'noclock' and name in persisted:
+            persisted[name].pop('start_clock', None)
+            persisted[name].pop('end_clock', None)
     env2 = Env()
     env2.merge_done_tasks(persisted)
     carried = {k: copy.deepcopy(dict(v)) for k, v in env2.items()}
@@ -499,7 +505,11 @@ def _rerun_case(n, edges, out1, between):
         if st.get(name) == 'DONE':
             for i in deps[j]:
                 d = env2.get(f't{i}') or {}
-                if st.get(f't{i}') == 'DONE':
+                if st.get(f't{i}') == 'DONE' and d.get('end_clock') is None and f't{i}' not in executed2:
+                    # a DONE dependency without clocks cannot be shown older than the task: the task is kept only if it was executed again in this run
+                    if name not in executed2:
+                        probs.append(f'C04: {name} is kept DONE although its DONE dependency t{i} has no end clock (nothing shows that {name} is newer)')
+                elif st.get(f't{i}') == 'DONE':
                     if d.get('end_clock') is None or ent.get('start_clock') is None or not d['end_clock'] <= ent['start_clock']:
                         probs.append(f'C04: {name} is DONE but its DONE dependency t{i} finished at {d.get("end_clock")} after {name} started at {ent.get("start_clock")}')
                 if edges.get((i, j)) == 'h' and st.get(f't{i}') in ('FAILED', 'SKIPPED'):
